@@ -34,7 +34,7 @@ ASSUMPTIONS = [
     "non-ASCII digits / spaces in the string form and exponents beyond binary64 range are not generated",
 ]
 
-TAGS = ["#", "#", "#", "#", "BRAM", "DSP", "reg1", "_x", "a_9", "Z", "BRAM", "DSP",
+TAGS = ["#"] * 10 + ["BRAM", "DSP", "reg1", "_x", "a_9", "Z", "BRAM", "DSP",
         # prefixes of each other, YAML-special words, words float() knows, the ground tag doubled
         "reg", "reg1_0", "null", "true", "yes", "on", "n", "inf", "nan", "x", "e5", "__", "_1", "True"]
 BAD_TAGS = ["_", "9a", "a-b", "", "a b", "##", "reg.1", "BRAM ", " BRAM", "#x", "_#", "1e5", "a:b", "x,y"]
@@ -271,8 +271,8 @@ def inject_defect(rng, case, tree, xs, ys):
     kinds = ["leave", "leave-neg", "unknown-key", "no-width", "bad-width", "empty-regions", "regions-not-list",
              "fixed-leaves", "fixed-leaves", "fixed-fixed", "fixed-fixed", "bad-entry"]
     if regs:
-        kinds += ["overlap", "overlap", "neg-size", "zero-size", "bad-tag", "bad-tag", "arity", "not-number", "dup",
-                  "leave", "fixed-overlap"]
+        kinds += ["overlap", "overlap", "neg-size", "zero-size", "bad-tag", "bad-tag", "arity", "not-number", "dup", "dup",
+                  "dup-blockage", "dup-blockage", "leave", "fixed-overlap"]
     kind = rng.choice(kinds)
     case["defect"] = kind
     q = F(1, 8)
@@ -296,7 +296,14 @@ def inject_defect(rng, case, tree, xs, ys):
         new = [r[0] + dx, r[1] + dy, r[2], r[3], rng.choice(TAGS)]
         regs.insert(rng.randrange(len(regs) + 1), new)
     elif kind == "dup":
-        regs.append(list(rng.choice(regs)))
+        regs.insert(rng.randrange(len(regs) + 1), list(rng.choice(regs)))
+    elif kind == "dup-blockage":
+        # two coinciding rectangles, at least one of them a blockage (same centre and shape, any order, any distance in the list)
+        src = rng.choice([r for r in regs if r[4] == "#"] or regs)
+        new = list(src)
+        if src[4] != "#" or rng.random() < 0.3:
+            new[4] = "#" if src[4] != "#" else rng.choice(TAGS)
+        regs.insert(rng.randrange(len(regs) + 1), new)
     elif kind == "neg-size":
         r = rng.choice(regs)
         r[rng.choice([2, 3])] *= -1
@@ -800,8 +807,8 @@ def to_coq(case, obs):
             # the unrepaired read_yaml refuses the stream object before reading it: nothing to compare
             # (the direct oracle reports the valid descriptions refused this way: C01/valid-rejected-stream)
             return "true"
-        cls = f"(Some {obs['cls']})" if obs["cls"] in ("RParse", "ROutside", "ROverlap", "RArea") else "None"
-        return f"agree_reject_in {world} {pars} {inp} {fx} {cls}"
+        # which assertion fired (obs['cls']) is kept for diagnosis only: the property says "rejected"
+        return f"agree_reject_in {world} {pars} {inp} {fx} None"
     L = lambda k: glist([fr.grect(r) for r in obs[k]])
     return f"agree_accept_in {world} {pars} {inp} {fx} {L('ground')} {L('spec')} {L('block')} {L('fixed')}"
 
@@ -998,11 +1005,16 @@ def run_oracle_only(ctx, out):
 
 def run(ctx, out, replay=None):
     n = 3500 if ctx.quick() else 24000
-    out.rule = ("dies with 0-8 lattice-aligned regions (blockages, identifiers, fixed rectangles through a generated netlist) "
-                "on a coarse nx x ny lattice (1..6 each, narrow columns for near-misses; patterns random / pinwheel ring with "
-                "enclosed hole / T-junction / fully covered); streams exact (dyadic), exact-eps (explicit epsilon 2^-10, sides "
-                "perturbed by 2^-11..2^-9), decimal (multiples of 0.1 / 0.01, die up to 1e5; direct oracle only), malformed (one "
-                "defect injected); non-trivial = at least two regions or a malformed description; distinct by canonical hash")
+    out.rule = ("dies with 0-8 lattice-aligned regions (blockages, identifiers incl. YAML-special words and prefixes of each other, fixed "
+                "rectangles through a generated netlist - one or several per fixed module, sometimes ALL rectangles, next to hard / soft "
+                "modules that must not appear) on a coarse nx x ny lattice (1..6 each, narrow columns for near-misses; patterns random / "
+                "pinwheel ring with enclosed hole / T-junction / fully covered / 9..33 one-cell regions); regions and keys in any order; "
+                "streams exact (dyadic), exact-eps (explicit epsilon 2^-10, sides perturbed by 2^-11..2^-9), decimal (multiples of 0.1 / "
+                "0.01, die up to 1e5; direct oracle only), malformed (one defect injected: description, netlist rectangles, or the text "
+                "itself), badstring ('<W>x<H>' broken in one place), sd (string_die called on random strings); input forms dict / flat "
+                "single region / '<W>x<H>' string (all float() spellings) / YAML text (4 layouts, number spellings, comments, > 4096 "
+                "characters) / file name / open stream, each with and without netlist; a fifth of the cases after earlier constructions "
+                "in the same process; non-trivial = at least two regions or a refused input; distinct by canonical hash")
     cases = []
     if replay and "case" in replay:
         cases.append(fr.unjson(replay["case"]))
